@@ -66,12 +66,11 @@ UNPROVED = [
 
 CL_D20 = "D20_gcxs_zero_extent"
 CL_SCIPY = "scipy_operand_rejected"
-CL_SHORTCUT = "zero_size_shortcut_ignores_return_type"
 # (csc_ndarray_sparse_rows_unsorted and csc_ndarray_sparse_count_overestimates_on_cancellation were repaired in /repo:
 #  no clause any more, a recurrence is a new violation)
 CL_CSCND = None
 CL_CSCCOUNT = None
-CL_EINSUM_ZEROS = "einsum_result_stores_explicit_zeros"
+
 
 CASE_KEYS = ("op", "a", "ka", "b", "kb", "rt", "axes", "sub", "axis", "dta", "dtb", "idx")
 PER_CASE_TIMEOUT = 15.0     # vlib allows 4x this per case (see run_impl): 60 s; JIT compilation of a kernel chain under load takes 10-25 s
@@ -101,6 +100,11 @@ def _mk(d, kind, caxes, idx=None):
     import scipy.sparse as sps
     import sparse
     np = _np()
+    if d.ndim == 0 and kind in ("coo", "gcxs"):
+        # a ZERO-FILLED 0-d sparse operand (COO.from_numpy of a 0-d array keeps the value as the fill value instead)
+        nz = 1 if d != 0 else 0
+        x = sparse.COO(np.zeros((0, nz), dtype=np.intp), np.full(nz, d[()], dtype=d.dtype), shape=(), fill_value=d.dtype.type(0))
+        return x if kind == "coo" else sparse.GCXS.from_coo(x)
     if idx and kind in ("coo", "gcxs"):
         # coordinates in a narrow index dtype (every axis fits; the number of stored elements need not)
         nz = np.nonzero(d)
@@ -698,6 +702,36 @@ def api_cases(tier, rng, budget=1):
         narrow.append(("dot", gen_spec((182, 182), 1.0), ka, gen_spec((182, 2), 1.0), kb, None, [[1], [0]], "int16"))
     for (op, a_, ka, b_, kb, rt, axes, idx) in narrow:
         add(op, a_, ka, b_, kb, rt=rt, axes=axes, tag="narrow_idx/" + idx, follow=False, idx=idx)
+    # ---- dot with a 0-d operand (multiplication by the scalar, via tensordot axes=0)
+    for (ka, kb) in [("coo", "coo"), ("coo", "nd"), ("nd", "coo"), ("gcxs", "coo"), ("coo", "gcxs"), ("nd", "gcxs")]:
+        for zero_first in (True, False):
+            sh = [rng.choice([1, 2, 3]) for _ in range(rng.randint(0, 3))]
+            s0 = rand_spec(rng, [], 1.0)
+            s1 = rand_spec(rng, sh, 0.7)
+            a_, b_ = (s0, s1) if zero_first else (s1, s0)
+            add("dot", a_, ka if ka != "gcxs" or (a_ is s1 and len(sh) >= 1) else "coo", b_,
+                kb if kb != "gcxs" or (b_ is s1 and len(sh) >= 1) else "coo", tag="dot0d", follow=False)
+    # ---- vecdot with operands of different ndim / broadcasting batch axes (axis is taken in each operand)
+    for _ in range(16 if quick else 120):
+        k = rng.choice([1, 2, 3])
+        sha = [rng.choice([1, 2, 3]) for _ in range(rng.randint(0, 2))]
+        shb = [d if rng.random() < 0.6 else 1 for d in sha][len(sha) - rng.randint(0, len(sha)):]
+        if rng.random() < 0.5:
+            sha, shb = shb, sha
+        nmin = min(len(sha), len(shb)) + 1
+        axis = rng.randrange(-nmin, nmin)
+        pa = axis if axis >= 0 else len(sha) + 1 + axis
+        pb = axis if axis >= 0 else len(shb) + 1 + axis
+        xa = sha[:pa] + [k] + sha[pa:]
+        xb = shb[:pb] + [k] + shb[pb:]
+        ka, kb = rng.choice(["coo", "gcxs", "nd"]), rng.choice(["coo", "gcxs", "nd"])
+        if ka == "nd" and kb == "nd":
+            ka = "coo"
+        add("vecdot", rand_spec(rng, xa), ka, rand_spec(rng, xb), kb, axis=axis, tag="vecdot_bcast", follow=False)
+    # ---- einsum terms with more subscripts than the operand has dimensions (ValueError like NumPy)
+    for sub, sa_, sb_ in (("ijk->i", (2, 3), None), ("ijk,k->ij", (2, 3), (3,)), ("ij,jkl->ik", (2, 3), (3, 2)), ("iij->j", (2, 2), None)):
+        add("einsum", rand_spec(rng, sa_, 0.8), rng.choice(["coo", "gcxs"]), None if sb_ is None else rand_spec(rng, sb_, 0.8),
+            None if sb_ is None else rng.choice(["coo", "nd"]), sub=sub, tag="einsum_too_many_subscripts", follow=False)
     # ---- malformed: mismatching contracted extents (must raise like NumPy)
     for _ in range(30 if quick else 200):
         m, n, n2, p = rng.choice([1, 2, 3]), rng.choice([1, 2, 3]), rng.choice([1, 2, 3, 4]), rng.choice([1, 2, 3])
@@ -852,16 +886,14 @@ def classify_api(case, code, r):
     if code == 13:
         return "value", None       # (D19, dot of 1-d operands of different lengths, was repaired: a recurrence is new)
     if code == 14:
-        if op == "tensordot" and case.get("rt") and contracted_extent_zero(case):
-            return "value", CL_SHORTCUT
-        return "value", None
+        return "value", None       # (zero_size_shortcut_ignores_return_type was repaired: a recurrence is new)
     if code == 15:
         g = r.get("r", {})
         if g.get("k") == "gcxs" and route_csc_nd_sparse(case, r):
             return "canonical_form", CL_CSCND if _rows_in_range(g) else CL_CSCCOUNT
         return "canonical_form", None      # (D8, csr @ csr, was repaired: a recurrence is new)
     if code == 16:
-        return "canonical_form", CL_EINSUM_ZEROS if op == "einsum" else None
+        return "canonical_form", None      # explicit zeros stored (einsum's unpruned result was repaired)
     if code == 20:
         if route_csc_nd_sparse(case, r):
             return "value", CL_CSCCOUNT
@@ -1014,18 +1046,12 @@ def campaign(build, tier, seed, report, budget=1):
                      "case": {k: c.get(k) for k in CASE_KEYS},
                      "impl": r.get("r"), "numpy": r.get("np"), "replay_py": replay_api(c)})
     bad_main = {}
-    unpruned = []
     for j, code in abad:
         i, f = owners[j]
         c, r = ac[i], ares[i]
         if f is None:
             bad_main[i] = code
             kind, clause = classify_api(c, code, r)
-            if code == 16:
-                # correct values, canonical coordinates, but zeros are stored: C06's subject, recorded as a note
-                tag("note/explicit_zeros/" + c["op"])
-                unpruned.append(c["op"])
-                continue
             tag("verdict/" + API_CODES.get(code, str(code)) + ("/" + clause if clause else ""))
             viol.append({"property": "C04", "op": c["op"], "kind": kind, "clause": clause, "code": code,
                          "what": API_CODES.get(code, str(code)), "kinds": list(c["kin"]), "return_type": c.get("rt"),
@@ -1047,9 +1073,6 @@ def campaign(build, tier, seed, report, budget=1):
                      "case": {k: c.get(k) for k in CASE_KEYS},
                      "slice": [f["lo"], f["hi"]], "impl": f["r"], "numpy": f["np"], "product": r.get("r"),
                      "replay_py": replay_api(c)})
-    if unpruned:
-        report["notes"].append(f"{len(unpruned)} results store explicit zeros (values and coordinates correct; canonical-form "
-                               f"property C06, not reported here): ops {sorted(set(unpruned))}")
     for i, got, want in dtype_viol:
         c = ac[i]
         tag("verdict/dtype")
